@@ -121,6 +121,12 @@ func VerifH_C04_TruthTable() {
 	// fix the unquoter's behaviour on both values up front
 	imUnq, imErr := verifStubCMETag(im)
 	inmUnq, inmErr := verifStubCMETag(inm)
+	if !vrt.Symbolic() {
+		// a native replay runs the real unquoter inside the implementation,
+		// so the reference has to use it as well
+		imUnq, imErr = im.ETag()
+		inmUnq, inmErr = inm.ETag()
+	}
 	checkTruthTable(fi, im, inm, imUnq, imErr == nil, inmUnq, inmErr == nil)
 
 	// the public helper
